@@ -283,7 +283,9 @@ func (dc *TraditionalDnsConn) ReserveNewQuery() (_ ReservedExchanger, closed boo
 
 	dc.queueMu.Lock()
 	defer dc.queueMu.Unlock()
-	if len(dc.queue)+dc.reservedQuery >= dc.maxCq {
+	// Every ongoing query holds its reservation until its exchange returns,
+	// so reservedQuery already includes the queries in dc.queue.
+	if dc.reservedQuery >= dc.maxCq {
 		return nil, false
 	}
 	dc.reservedQuery++
